@@ -61,7 +61,10 @@ impl Bias {
 
 fn add(span: Span<u32>, a: Numeric, mut b: Numeric) -> Result<Numeric> {
     match a.unit.factor(&b.unit, &mut b.value) {
-        Ok(true) => Ok(Numeric::new(a.value + b.value, a.unit)),
+        Ok(true) => {
+            let unit = if a.unit.is_empty() { b.unit } else { a.unit };
+            Ok(Numeric::new(a.value + b.value, unit))
+        }
         Ok(false) => Err(Error::new(
             span,
             IllegalOperation {
@@ -82,7 +85,10 @@ fn add(span: Span<u32>, a: Numeric, mut b: Numeric) -> Result<Numeric> {
 
 fn sub(span: Span<u32>, a: Numeric, mut b: Numeric) -> Result<Numeric> {
     match a.unit.factor(&b.unit, &mut b.value) {
-        Ok(true) => Ok(Numeric::new(a.value - b.value, a.unit)),
+        Ok(true) => {
+            let unit = if a.unit.is_empty() { b.unit } else { a.unit };
+            Ok(Numeric::new(a.value - b.value, unit))
+        }
         Ok(false) => Err(Error::new(
             span,
             IllegalOperation {
